@@ -116,7 +116,7 @@ func (h *Handler) handleDiscover(p packet.DHCP4, options packet.DHCP4Options) (d
 	//  assuming the other server offered the requested IP - guess
 	//
 	if h.mode == ModeSecondaryServer || (h.mode == ModeSecondaryServerNice && lease.subnet.Stage == packet.StageRedirected) {
-		if reqIP.IsValid() && !reqIP.IsUnspecified() {
+		if reqIP.Is4() && !reqIP.IsUnspecified() { // a 16 byte option value parses as an IPv6 address
 			h.forceDecline(lease.ClientID, h.net1.DefaultGW, lease.Addr.MAC, reqIP, p.XId())
 		}
 	}
